@@ -147,12 +147,12 @@ def build(spec):
         if t.get("pk_name") and any(c["pk"] for c in t["cols"]):
             extra.append(sa.PrimaryKeyConstraint(*[c["name"] for c in t["cols"] if c["pk"]], name=t["pk_name"]))
         for f in t["fks"]:
-            extra.append(_fkc(sa, m, f))
+            extra.append(_fkc(sa, m, f, spec.get("schema")))
         for u in t["uqs"]:
             extra.append(sa.UniqueConstraint(*u["cols"], name=u["name"]))
         for k in t["cks"]:
             extra.append(sa.CheckConstraint(k["sql"], name=k["name"]))
-        tb = sa.Table(t["name"], m, *(cols + extra))
+        tb = sa.Table(t["name"], m, *(cols + extra), schema=spec.get("schema"))
         for ix in t["ixs"]:
             kw = {}
             if ix.get("where"):
@@ -161,10 +161,11 @@ def build(spec):
     return m
 
 
-def _fkc(sa, m, f):
-    # targets as "table.column" strings (SQLAlchemy splits on '.', so the generator avoids dots in names)
+def _fkc(sa, m, f, schema=None):
+    # targets as "[schema.]table.column" strings (SQLAlchemy splits on '.', so the generator avoids dots in names)
+    pre = schema + "." if schema else ""
     return sa.ForeignKeyConstraint(
-        f["cols"], ["%s.%s" % (f["rtable"], rc) for rc in f["rcols"]],
+        f["cols"], ["%s%s.%s" % (pre, f["rtable"], rc) for rc in f["rcols"]],
         name=f["name"], ondelete=f["ondelete"], onupdate=f["onupdate"], deferrable=f["deferrable"], initially=f["initially"],
     )
 
@@ -178,6 +179,7 @@ def new_engine():
     @event.listens_for(eng, "connect")
     def _c(dbapi, rec):
         dbapi.execute("PRAGMA foreign_keys=ON")
+        dbapi.execute("ATTACH DATABASE ':memory:' AS aux")  # a second schema for schema-qualified reflection
 
     return eng
 
@@ -205,11 +207,17 @@ def strip_parens(s):
     return s
 
 
-def snapshot(eng):
+def snapshot(eng, schema=None):
     """everything the Inspector reports, canonicalised (lists of constraints sorted)"""
     from sqlalchemy import inspect
 
-    insp = inspect(eng)
+    insp0 = inspect(eng)
+
+    class _I:  # every call with the schema
+        def __getattr__(self, name):
+            return lambda *a, **k: getattr(insp0, name)(*a, schema=schema, **k)
+
+    insp = _I()
     out = {}
     with warnings.catch_warnings():
         warnings.simplefilter("error")  # a reflection warning is a reflection failure
@@ -222,7 +230,7 @@ def snapshot(eng):
             fks = sorted(
                 (
                     {"name": f["name"], "cols": list(f["constrained_columns"]), "rtable": f["referred_table"], "rcols": list(f["referred_columns"]),
-                     "options": dict(sorted(f.get("options", {}).items()))}
+                     "rschema": f.get("referred_schema"), "options": dict(sorted(f.get("options", {}).items()))}
                     for f in insp.get_foreign_keys(t)
                 ),
                 key=lambda f: json.dumps(f, sort_keys=True),
@@ -245,7 +253,7 @@ def expected(spec):
     ddlc = d.ddl_compiler(d, None)
     out = {}
     for t in spec["tables"]:
-        tb = m.tables[t["name"]]
+        tb = m.tables[(spec["schema"] + "." if spec.get("schema") else "") + t["name"]]
         pkcols = [c["name"] for c in t["cols"] if c["pk"]]
         cols = []
         for c in t["cols"]:
@@ -269,7 +277,7 @@ def expected(spec):
                 opts["deferrable"] = f["deferrable"]
             if f["initially"]:
                 opts["initially"] = f["initially"]
-            fks.append({"name": f["name"], "cols": f["cols"], "rtable": f["rtable"], "rcols": f["rcols"], "options": dict(sorted(opts.items()))})
+            fks.append({"name": f["name"], "cols": f["cols"], "rtable": f["rtable"], "rcols": f["rcols"], "rschema": spec.get("schema"), "options": dict(sorted(opts.items()))})
         uqs = [{"name": u["name"], "cols": u["cols"]} for u in t["uqs"]] + [{"name": None, "cols": [c["name"]]} for c in t["cols"] if c.get("unique")]
         out[t["name"]] = {
             "cols": cols,
@@ -320,7 +328,7 @@ def check_spec(spec):
             warnings.simplefilter("ignore")
             m.create_all(eng)
         try:
-            snap1 = snapshot(eng)
+            snap1 = snapshot(eng, spec.get("schema"))
         except Warning as w:
             return [("reflect-warning", "%s: %s" % (type(w).__name__, w))]
         except Exception as e:  # noqa
@@ -331,7 +339,7 @@ def check_spec(spec):
         try:
             with warnings.catch_warnings():
                 warnings.simplefilter("error")
-                m2.reflect(eng)
+                m2.reflect(eng, schema=spec.get("schema"))
         except Warning as w:
             return bad + [("reflect-warning", "MetaData.reflect: %s" % w)]
         except Exception as e:  # noqa
@@ -345,7 +353,7 @@ def check_spec(spec):
             except Exception as e:  # noqa
                 return bad + [("recreate-exception", "%s: %s" % (type(e).__name__, e))]
             try:
-                snap2 = snapshot(eng2)
+                snap2 = snapshot(eng2, spec.get("schema"))
             except Warning as w:
                 return bad + [("reflect-warning", "second reflection: %s" % w)]
             if snap1 != snap2:
@@ -443,7 +451,7 @@ def gen_spec(rng, nasty):
             t["fks"].append({"name": fresh("fk") if rng.random() < 0.6 else None, "cols": lc, "rtable": tgt["name"], "rcols": rc,
                              "ondelete": rng.choice(ACTIONS), "onupdate": rng.choice(ACTIONS), "deferrable": defer,
                              "initially": rng.choice([None, "DEFERRED", "IMMEDIATE"]) if defer else None})
-    return {"tables": tables}
+    return {"tables": tables, "schema": "aux" if rng.random() < 0.25 else None}
 
 
 def gen_type_strings(rng, n):
@@ -486,6 +494,7 @@ def run(ctx, deep=False):
         ctx.case(json.dumps(spec, sort_keys=True), nontrivial=ntriv)
         ctx.count("tables=%d" % len(spec["tables"]))
         ctx.count("nasty" if nasty else "plain")
+        ctx.count("schema=%s" % spec.get("schema"))
         ctx.count("fks=%d" % sum(len(t["fks"]) for t in spec["tables"]))
         bad = check_spec(spec)
         for key, detail in bad:
